@@ -447,13 +447,16 @@ template<class H, class Cfg> struct Bfs
         if(x < 0) break;
         if(x >= o->nops()) { printf("op %d not enabled\n", x); return 2; }
         printf("  %s\n", o->opname(x).c_str()); fflush(stdout);
+        watchdog_arm(watchdogMs * 4);      // a recorded hang is reproduced as a watchdog exit, not as a replay that never ends
         o->apply(x);
         printf("      -> %s\n", o->canon().c_str());
       }
       o->finish();
+      watchdog_disarm();
     }
     catch(Violation& v)
     {
+      watchdog_disarm();
       printf("REPRODUCED key=%s msg=%s\n", v.key.c_str(), v.msg.c_str());
       violation(v.key, describe(h, op), v.msg);
       return 1;
